@@ -636,7 +636,8 @@ impl<'i> VariableValidator<'i> {
             None => return false,
         };
 
-        found_spans.iter().any(|s| s < &key_span)
+        // an iterator is visible only inside its fold
+        found_spans.iter().any(|s| s.contains_span(key_span))
     }
 
     fn met_variable_name_definition(&mut self, name: &'i str, span: Span) {
